@@ -1,7 +1,7 @@
 #!/usr/bin/env python3
 """mutate.py <file> [--props C01,C02] [--max N] [--seed S] [--ops cmp,try,persist] : development tool (NOT a
 registered check).  Generates small first-order mutants of one source file of /repo (non-test part only), applies
-each to /repo's working tree, runs the given property checks (quick tier) and records which rule, if any, reports
+each to a private copy of /repo's committed tree (MUT_REPO, default /tmp/mut_repo), runs the given property checks (quick tier) and records which rule, if any, reports
 it; /repo is restored after every mutant.  Output: /verif/.cache/mutants/<file>.jsonl (one line per mutant).
 
 Operators
@@ -20,7 +20,7 @@ import time
 from concurrent.futures import ThreadPoolExecutor
 
 VERIF = os.path.dirname(os.path.dirname(os.path.abspath(__file__)))
-REPO = "/repo"
+REPO = os.environ.get("MUT_REPO", "/tmp/mut_repo")   # a private copy; /repo itself is never touched
 
 
 def sh(cmd):
@@ -60,7 +60,7 @@ def mutants(path, ops):
 
 def run_checks(props):
     def one(p):
-        r = sh(f"cd {VERIF} && ./check {p} --tier quick")
+        r = sh(f"cd {VERIF} && VLS_REPO={REPO} ./check {p} --tier quick")
         rules = [x.strip()[:200] for x in r.stdout.splitlines() if x.strip().startswith("rule ")]
         return p, r.returncode, rules
     # first one alone (does the extraction), the rest in parallel
@@ -80,9 +80,8 @@ def main():
     seed = int(a[a.index("--seed") + 1]) if "--seed" in a else 1
     ops = a[a.index("--ops") + 1].split(",") if "--ops" in a else ["cmp", "try", "persist"]
     path = os.path.join(REPO, f)
-    if sh("git -C /repo status --porcelain --untracked-files=no").stdout.strip():
-        print("refusing: /repo dirty")
-        return 2
+    # fresh private copy of the committed tree
+    sh(f"rm -rf {REPO} && mkdir -p {REPO} && git -C /repo archive HEAD | tar -x -C {REPO}")
     src, ms = mutants(path, ops)
     random.Random(seed).shuffle(ms)
     ms = ms[:mx]
@@ -100,7 +99,7 @@ def main():
                 open(path, "w").write("\n".join(new))
                 res = run_checks(props)
             finally:
-                sh("git -C /repo checkout -- .")
+                open(path, "w").write("\n".join(src))
             broken = any(rc == 2 for _, rc, _ in res)
             det = [(p, r[:2]) for p, rc, r in res if rc == 1]
             rec = {"file": f, "line": i + 1, "op": op, "what": what, "orig": src[i].strip()[:160], "new": newline.strip()[:160],
